@@ -229,6 +229,22 @@ func init() {
 		th.quiesced = false
 		return nil, true
 	})
+	zz("Guard", func(m *Machine, th *Thread, fn *ssa.Function, a []Value) (Value, bool) {
+		// Guard(mapValue any, mutexPtr any, name string): every later access to the map must hold the mutex
+		mi, _ := a[0].(*IfaceV)
+		pi, _ := a[1].(*IfaceV)
+		if mi == nil || pi == nil {
+			m.unsupported("Guard arguments")
+		}
+		mp, ok := mi.V.(*MapV)
+		p, ok2 := pi.V.(*Ptr)
+		if !ok || !ok2 || mp == nil || p.IsNil() {
+			m.unsupported("Guard needs a non-nil map and a mutex pointer")
+		}
+		mp.guard, mp.guardPath, mp.owner = p.obj, p.path, m.concStr(a[2], "guard name")
+		m.cfg.LockMonitor = true
+		return nil, true
+	})
 	zz("SetMapOrderLimit", func(m *Machine, th *Thread, fn *ssa.Function, a []Value) (Value, bool) {
 		m.cfg.Params["mapOrderLimit"] = m.concInt(a[0], "limit")
 		return nil, true
